@@ -23,8 +23,11 @@ CLAIMED["C01"] = dict(
     text="Decides necessary structural conditions of dispatch, not the behaviour for every registry: (walk) for every method of the witness "
          "matrix (policies x signature shapes incl. non-virtual parameters before/between/after virtual ones x parameter kinds) the pointer "
          "operator() calls and resolve() returns is, as a symbolic expression over the arguments, exactly the documented slots-then-strides walk "
-         "reading each virtual argument once, in order, and no non-virtual one. That update fills the tables with the right definition for every "
-         "lattice (a graph algorithm over run-time data) is not decided.",
+         "reading each virtual argument once, in order, and no non-virtual one; (tables) the AST rules on the compiler decide the steps update is made "
+         "of - the specificity table, the per-pair elimination step of best(), applicability = membership in the covariant set, table geometry "
+         "(strides, row-major recursion, group numbering), cell choice for 0/1/2+ best definitions, the run-time model mirroring the registrations "
+         "one to one, slot choice and reservation, and the v-table pointer table being written (overwriting) at the key it is read at. That these "
+         "steps compose to the right definition for every lattice (an induction over graph algorithms on run-time data) is not decided.",
     design_ref="DESIGN.md section 4, C01")
 CLAIMED["C02"] = dict(
     technique="IR symbolic summaries of the ids/constants stored into resolution_error; must-reach-abort path query after every handler call; landing-pad scan of the call path",
@@ -62,15 +65,17 @@ CLAIMED["C11"] = dict(engine="e3+yast+yir",
          "dynamic_cast is selected exactly when a virtual base is on the path, the thunk has the method's signature, programs with move-only / "
          "rvalue / const-pointee / const virtual_ptr& parameters compile and the shared_ptr value/reference mixes are rejected; conversions between "
          "class pointers on the path are derived<->base or dynamic casts (never bit casts); no copy constructor of a by-value/rvalue argument is "
-         "called in operator(), thunk::fn or the cast helpers and moves are bounded per hop. Run-time addresses and counts are not observed.",
+         "called in operator(), thunk::fn or the cast helpers and moves are bounded per hop; shared_ptr conversions return a pointer whose owner is the "
+         "argument (std::static/dynamic_pointer_cast or aliasing with the argument as owner). Run-time addresses and counts are not observed.",
     design_ref="DESIGN.md section 4, C11")
 CLAIMED["C12"] = dict(engine="yast+yir",
     technique="AST emission-order model with affine index comparison (generator); AST shape rules (installer/codec); IR symbolic walk with compile-time offsets; IR operand check of the run-time cross-check",
     text="Decides the property as a statement about positions: every reader and writer of a method's slots-and-strides array uses 'slot_k in cell k, "
          "stride_k in cell arity+k-1' - the static-offset generator (each emitted element's index compared as a polynomial in the loop variable and "
          "arity), install_gv, decode/encode, and resolve with compile-time offsets for arity 1-4 incl. non-virtual parameters in between; under "
-         "runtime checks each compile-time slot/stride is compared with the installed cell of the same position and a mismatch (only) reaches the "
-         "handler. The numbers update computes are run-time values and are not decided.",
+         "runtime checks each compile-time slot/stride is compared with the installed cell of the same position on every call (no path through the "
+         "check avoids the comparison) and a mismatch (only) reaches the handler; generated integers are printed at full width. The numbers update "
+         "computes are run-time values and are not decided.",
     design_ref="DESIGN.md section 4, C12")
 CLAIMED["C13"] = dict(engine="yast",
     technique="AST counting rule: affine contributions to each declared extent vs values emitted / read per class and entry; truth-table comparison of branch predicates; flag-bit and cell-order agreement across encoder, decoder, augment_methods",
@@ -85,7 +90,8 @@ CLAIMED["C03"] = dict(engine="yast",
     text="Decides necessary structural conditions: is_base is the documented per-position table over {equal, base, derived, unrelated}; the value "
          "stored through a definition's next is the sole best candidate's function, the not-implemented handler when there is none and the ambiguity "
          "handler when there are several; candidates are exactly is_base(other, this); the store is control dependent only on the two loops and the "
-         "pointer's own null test, so every update recomputes it for every definition. Does not decide that best() picks the right elements for every lattice.",
+         "pointer's own null test, so every update recomputes it for every definition; the candidate list is filled by that filter over all the "
+         "method's definitions and by nothing else; best()'s per-pair elimination step is the documented one. Does not decide the fold of best() over every lattice.",
     design_ref="DESIGN.md section 4, C03")
 CLAIMED["C17"] = dict(engine="yast",
     technique="AST decision tables with symbolic guards; sibling-guard comparison; field pairing",
@@ -99,7 +105,8 @@ CLAIMED["C05"] = dict(engine="yast",
          "bucket clears the flag and is never overwritten; the empty-bucket marker is invalid_type in both fill and test (any other value is a legal "
          "id); the search probes with exactly the expression hash_type_id computes, hash_shift = 64 - M with 1 << M buckets; publish_vptrs runs "
          "search -> resize(hash_length) -> stores unconditionally on every update over every id of every class; the checked hash returns an index only "
-         "when it is in range and control[index] is the id. Does not decide that the random search succeeds or terminates, nor table contents.",
+         "when it is in range and control[index] is the id (also for a checked policy without error handler: it aborts); while trial parameters are "
+         "written the table is invalid (hash_length = 0) and an exhausted search only reports and aborts. Does not decide that the random search succeeds or terminates, nor table contents.",
     design_ref="DESIGN.md section 4, C05")
 CLAIMED["C10"] = dict(engine="yast",
     technique="AST who-must-wrap rule, CFG control-dependence whitelists, loop-nest rule, typestate rule on deferred-id flags",
@@ -113,7 +120,10 @@ CLAIMED["C04"] = dict(engine="yast",
     text="Decides necessary structure, not collision freedom for every lattice: the v-table entry written at update (slot - first_slot), the biased "
          "pointer installed by install_gv and by the decoder, and the lattice v-table size agree; dispatch_data is sized as the sum of all dispatch "
          "table and v-table entries and each entry writes exactly one cell; in the lattice allocator the steps that mark a chosen slot, reserve it in "
-         "every base and propagate it through every covariant class and its bases are guarded by nothing beyond the visited check and the loops. That "
+         "every base and propagate it through every covariant class and its bases are guarded by nothing beyond the visited check and the loops, range "
+         "over transitive_bases / covariant_classes, and the slot chosen is free in used AND reserved sets; tree numbering is consecutive (symbolic "
+         "counter), sizes the v-table and seeds the derived classes with the counter, and is only chosen when no class at or below the root has "
+         "several bases; every parameter registers the pair (its method, its position). That "
          "the allocation is collision-free and the tables large enough for every lattice (a graph algorithm over run-time data) is NOT decided.",
     design_ref="DESIGN.md section 4, C04")
 CLAIMED["C07"] = dict(engine="yast",
@@ -130,7 +140,8 @@ CLAIMED["C09"] = dict(engine="yir+yast",
          "lvalue / rvalue, final, make_virtual_shared, converting/copy/move constructors, cast) for nine policies: static routes take "
          "static_vptr<pointee class> of the same policy (its address when indirect), the dynamic route reads the cell Policy::dynamic_vptr reads, "
          "conversions and cast carry the source's pointer, accessors return the stored object; the indirect table holds addresses of static v-table "
-         "pointers written only by install_gv / decode. Equality of run-time dispatch results is not observed.",
+         "pointers written only by install_gv / decode; the table dynamic_vptr reads is written by publish_vptrs at the same (hashed) key with an "
+         "overwriting store. Equality of run-time dispatch results is not observed.",
     design_ref="DESIGN.md section 4, C09")
 CLAIMED["C15"] = dict(engine="yast+yir",
     technique="AST rules on the update-time look-ups (null test, reported id, abort, control dependence); IR must-pass-through query (checked hash) on every object-to-vptr route; operand check of final's comparison",
